@@ -26,6 +26,10 @@ def make_probes(bib):
             super().__init__(allow_inplace_modification=True)
             self.name = name
 
+        def transform(self, library):
+            self.calls = getattr(self, "calls", 0) + 1
+            return super().transform(library)
+
         def transform_entry(self, entry, library):
             t = entry["title"] if "title" in entry else ""
             layers = len(t) - len(t.lstrip("{")) if isinstance(t, str) else -1
@@ -38,6 +42,7 @@ def make_probes(bib):
             self.name = name
 
         def transform(self, library):
+            self.calls = getattr(self, "calls", 0) + 1
             for entry in library.entries:
                 t = entry["title"]
                 layers = len(t) - len(t.lstrip("{"))
@@ -123,10 +128,28 @@ def run_cfg(bib, c, BlockProbe, LibProbe):
             lib = bib.parse_string(DOC, parse_stack=build(bib, c["ps"], BlockProbe, LibProbe, c["ct"]),
                                    append_middleware=build(bib, c["app"], BlockProbe, LibProbe, c["ct"]))
         except ValueError:
-            return {"err": True}
+            # ... whatever the text is: an empty document is no excuse for accepting both arguments
+            try:
+                bib.parse_string("", parse_stack=build(bib, c["ps"], BlockProbe, LibProbe, c["ct"]),
+                                 append_middleware=build(bib, c["app"], BlockProbe, LibProbe, c["ct"]))
+                return {"err": "only for a non-empty document"}
+            except ValueError:
+                return {"err": True}
         except Exception as ex:  # noqa
             return {"err": "other", "exc": f"{type(ex).__name__}: {ex}"}
         out = {"err": False, "e": observe_lib(lib)}
+        # the same call on documents without any block: the stack is built and run all the same (a library middleware is
+        # called once per position; giving both arguments raises whatever the text is)
+        for empty in ("", " \n\t\n"):
+            ps2, app2 = build(bib, c["ps"], BlockProbe, LibProbe, c["ct"]), build(bib, c["app"], BlockProbe, LibProbe, c["ct"])
+            keep = [m for m in (list(ps2) if isinstance(ps2, (list, tuple)) else []) + (list(app2) if isinstance(app2, (list, tuple)) else [])]
+            try:
+                bib.parse_string(empty, parse_stack=ps2, append_middleware=app2)
+                calls = [getattr(m, "calls", 0) for m in keep if isinstance(m, (BlockProbe, LibProbe))]
+                if any(x != 1 for x in calls):
+                    out["empty_document"] = f"on an empty document the probes were called {calls} times"
+            except Exception as ex:  # noqa
+                out["empty_document"] = f"{type(ex).__name__}: {ex}"
         # the same call with library=<a library holding an earlier, untransformed entry>
         try:
             lib0 = bib.Library([M.Entry("article", "pre", [M.Field("title", "{{x}}"), M.Field("month", "3")])])
@@ -212,7 +235,10 @@ def files(chk, bib):
     more = [("utf-8", "\ufeff" + docs["utf-8"]), ("UTF-8", "\ufeff@article{k, title = {x}}\n"), ("utf8", "\ufeff% c\n@article{k, title = {x}}\n"),
             ("utf-8-sig", docs["utf-8"]), ("utf-16-le", "\ufeff" + docs["utf-16"]), ("utf-8", docs["utf-8"].replace("\n", "\r\n")),
             ("latin-1", "@article{k, title = {" + "".join(chr(c) for c in range(0xa0, 0x100)) + "}}\n"), ("ascii", "@article{k, title = {x}}\n"),
-            ("utf-8", ""), ("utf-8", "\ufeff")]
+            ("utf-8", ""), ("utf-8", "\ufeff"),
+            ("latin-1", "@article{k, title = {a\x85b\x0cc\x0bd\x1ce}}\n% x\x85y\n@book{b, t = {z}}\n"),
+            ("utf-8", "@article{k, title = {a\u2028b\u2029c}}\n\u2028@book{b, t = {z}}\r@misc{m}\n"),
+            ("utf-16", "@article{k, title = {a\u2028b\x0c}}\n@book{b, t = {z}}\n")]
     try:
         for fi, (enc, text) in enumerate(list(docs.items()) + more):
             path = os.path.join(d, f"in{fi}." + enc)
@@ -328,7 +354,7 @@ def run(chk: core.Check):
         if ok and not want["err"]:
             if c["side"] == "parse":
                 w = want_entry(want["e"])
-                ok, clause = got["e"] == w, "parse_stack_order"
+                ok, clause = got["e"] == w and "empty_document" not in got, "parse_stack_order"
                 wp = want_entry(want["pre"])
                 want = w
                 if ok:
@@ -371,7 +397,14 @@ def run(chk: core.Check):
     chk.traces += n
     chk.clause("T2.configuration", n)
     chk.exhaustive = True
-    nf = files(chk, bib)
+    try:
+        nf = files(chk, bib)
+    except core.MachineryError:
+        raise
+    except Exception as ex:  # noqa: the file clauses call the entry points directly; an exception there is a verdict
+        chk.mismatch("parse_stack_order", {"kind": "file", "what": "entry points called with their default stacks"},
+                     f"{type(ex).__name__}: {ex}", "the default stacks are what the documentation says, in every call", kind="file")
+        nf = 1
     chk.traces += nf
     chk.evaluations += nf
     chk.clause("T2.file_clauses", nf)
